@@ -74,11 +74,11 @@ func specSlot(h int) int {
 
 // H is one symbolic chain state plus the keeper under test.
 type H struct {
-	Env *verifrt.Env
-	K   *Keeper
-	S   msgServer
-	sfx string // suffix for nondet names that must differ between two states
-	wild bool  // C20: no input-shape assumptions (non-ASCII strings, absent amounts)
+	Env  *verifrt.Env
+	K    *Keeper
+	S    msgServer
+	sfx  string // suffix for nondet names that must differ between two states
+	wild bool   // C20: no input-shape assumptions (non-ASCII strings, absent amounts)
 
 	Role       [5]string // by slot; Role[slotPending] valid iff PendingSet
 	PendingSet bool
@@ -112,17 +112,17 @@ type H struct {
 }
 
 type msgFields struct {
-	From        string
-	NewRole     verifrt.Addr
-	Attester    string
-	Amount32    uint32
-	Size        uint64
-	Domain      uint32
-	Token       []byte
-	Local       string
-	Address     []byte
-	RespNonce   uint64
-	HasResp     bool
+	From      string
+	NewRole   verifrt.Addr
+	Attester  string
+	Amount32  uint32
+	Size      uint64
+	Domain    uint32
+	Token     []byte
+	Local     string
+	Address   []byte
+	RespNonce uint64
+	HasResp   bool
 }
 
 func newH(sfx string) *H {
@@ -439,16 +439,16 @@ type userCaps struct {
 func smallCaps() userCaps { return userCaps{body: 4, msg: 116 + 133, att: 65*2 + 1, denom: 5} }
 
 type userMsg struct {
-	From       verifrt.Addr
-	Amount     math.Int
-	Domain     uint32
-	Recipient  []byte
-	Body       []byte
-	Caller     []byte
-	BurnToken  string
-	Message    []byte
+	From        verifrt.Addr
+	Amount      math.Int
+	Domain      uint32
+	Recipient   []byte
+	Body        []byte
+	Caller      []byte
+	BurnToken   string
+	Message     []byte
 	Attestation []byte
-	Nonce      uint64 // response nonce (producers)
+	Nonce       uint64 // response nonce (producers)
 }
 
 // setupUserState is the pre-state for the unprivileged handlers: scalars, 1..maxAtt attesters, one
